@@ -16,6 +16,9 @@ MEMBERS = ("module function/class", "module variable", "method of a module-level
 TARGET_KINDS = {"Name", "Tuple", "List", "Starred"}
 
 
+LATER_RULES = ' Later rules: (R7.3) the producer also descends into module-level compound statements and emits classes nested in classes; (R7.7) = C05 R5.6; (R7.8) guards over walk_sequence items operate on nodes, not on match tuples.'
+
+
 def check(prog: Program, tier: str) -> Result:
     res = Result(
         "C07",
@@ -33,6 +36,7 @@ def check(prog: Program, tier: str) -> Result:
             "Not decided: removal of a definition by other means than the enumerated sites (e.g. inside dead code)."),
         rule_text="instances = option plumbing calls, definition-affecting sites, producer table entries per member class, target kinds of the unpacker",
     )
+    res.explanation += LATER_RULES
     res.trusted_base = ["CPython ast", "sa/pathcond.py", "sa/preserve.py", "member classes of the public surface as stated by the property"]
     plumbing(prog, res, "R7.1", ("preserve", "safe"))
     stats = site_obligations(prog, res, "R7.2", need_bare=False)
